@@ -364,52 +364,83 @@ def _autolink_guard(f: Func, n: ast.AST, cfg: CFG, res: dict, c: Ctx | None = No
 
 
 def _bookkeeping(c: Ctx, r: RuleResult, f: Func) -> None:
-    """In a loop over tokens that maintains an autolink counter, the tests that update the counter are on every path through
-    the loop body (no `continue` can bypass them)."""
+    """In a loop over tokens that maintains an autolink counter: for a token of kind link_open (resp. link_close) every path
+    through the loop body evaluates the guard of the corresponding counter update - no `continue` taken for such a token
+    can bypass it.  The walk specialises the tests on the token's type to the kind considered (an `elif` after
+    `type == "text"` is not a bypass: a link token never takes the text branch)."""
+    from ..syn import incr_of
     cfg = c.cfg(f)
+    counters = _autolink_counters(f)
     for loop in [n for n in own_nodes(f.node) if isinstance(n, ast.For)]:
-        from ..syn import incr_of
-        counters = _autolink_counters(f)
         ups = [s for s in ast.walk(loop) if isinstance(s, (ast.Assign, ast.AugAssign)) and (i_ := incr_of(s)) is not None and i_[0] in counters]
-        if not ups:
+        if not ups or not isinstance(loop.target, ast.Name):
             continue
+        tok = loop.target.id
         head = next((x for x in cfg.nodes if x.kind == "for" and x.ast is loop), None)
         if head is None:
             continue
-        tests = []
-        for u in ups:
-            # the test node(s) guarding this update: tests mentioning link_open / link_close
-            p = f.module.parents.get(u)
-            while p is not None and not isinstance(p, ast.If):
-                p = f.module.parents.get(p)
-            if isinstance(p, ast.If):
-                first = [x for x in cfg.nodes if x.kind == "test" and x.ast is not None and any(y is x.ast for y in ast.walk(p.test))]
-                if first:
-                    # the first test node of the condition in evaluation order = the one other body nodes lead to
-                    tests.append(min(first, key=lambda x: (x.lineno, getattr(x.ast, "col_offset", 0))))
         ok = True
-        for t in tests:
-            # can the back edge be reached from the loop head's iter edge without passing t?
+        kinds_seen = []
+        for u in ups:
+            guard = f.module.parents.get(u)
+            while guard is not None and not isinstance(guard, ast.If):
+                guard = f.module.parents.get(guard)
+            if guard is None:
+                ok = False
+                continue
+            lits = [x.value for x in ast.walk(guard.test) if isinstance(x, ast.Constant) and x.value in ("link_open", "link_close")]
+            if len(lits) != 1:
+                ok = False
+                continue
+            L = lits[0]
+            kinds_seen.append(L)
+            guard_tests = {id(x) for x in ast.walk(guard.test)}
+            unode = {n.id for n in cfg.owner(u)}
+
+            def type_test(a: ast.AST):
+                """-> True/False if the test is decided by tok.type == L, else None."""
+                if isinstance(a, ast.Compare) and len(a.ops) == 1 and U(a.left) == f"{tok}.type":
+                    rhs = a.comparators[0]
+                    if isinstance(rhs, ast.Constant):
+                        if isinstance(a.ops[0], ast.Eq):
+                            return rhs.value == L
+                        if isinstance(a.ops[0], ast.NotEq):
+                            return rhs.value != L
+                    if isinstance(rhs, (ast.Tuple, ast.List, ast.Set)) and all(isinstance(e, ast.Constant) for e in rhs.elts):
+                        vals = {e.value for e in rhs.elts}
+                        if isinstance(a.ops[0], ast.In):
+                            return L in vals
+                        if isinstance(a.ops[0], ast.NotIn):
+                            return L not in vals
+                return None
             seen: set[int] = set()
             stack = [m for (m, l) in head.succ if l == "iter"]
             bypass = False
             while stack:
                 x = stack.pop()
-                if x.id in seen or x is t:
+                if x.id in seen:
                     continue
                 seen.add(x.id)
+                if x.id in unode:
+                    continue
                 if x is head:
                     bypass = True
                     break
+                if x.kind == "test" and x.ast is not None:
+                    tt = type_test(x.ast)
+                    if tt is not None:
+                        stack.extend(m for (m, l) in x.succ if l == ("T" if tt else "F"))
+                        continue
+                    if id(x.ast) in guard_tests:
+                        continue          # the guard of the update is being evaluated for this token: not a bypass
                 stack.extend(m for (m, l) in x.succ if l != "exc")
             if bypass:
                 ok = False
-        r.add(f"{f.short}|autolink-bookkeeping", c.where(f, loop), f.short, f"for {U(loop.target)} in {U(loop.iter)}: ...", "discharged" if ok and tests else "violation",
-              "the link_open / link_close tests that maintain the autolink counter are evaluated for every token" if ok and tests else
-              "a path through the loop body reaches the next token without evaluating the autolink bookkeeping (an early `continue`): the "
-              "counter misses link tokens and autolink text is rewritten")
-    # generator-style refactors: a yield inside the loop counts as handing the token to the writer
-    return
+        r.add(f"{f.short}|autolink-bookkeeping", c.where(f, loop), f.short, f"for {U(loop.target)} in {U(loop.iter)}: ...",
+              "discharged" if ok and {"link_open", "link_close"} <= set(kinds_seen) else "violation",
+              "for a link_open / link_close token every path through the loop body evaluates the guard of the autolink counter update" if ok and {"link_open", "link_close"} <= set(kinds_seen) else
+              "a link_open / link_close token can pass through the loop body without the autolink counter's guard being evaluated (an early "
+              "`continue`), or one of the two updates is missing: the counter misses link tokens and autolink text is rewritten")
 
 
 def rule_order(c: Ctx) -> RuleResult:
